@@ -149,7 +149,9 @@ func (t *tailBuffer) String() string {
 
 func (p *Pool) start() error {
 	cmd := exec.Command(os.Args[0], "-test.run=^TestWorker$", "-test.timeout=0")
-	cmd.Env = append(os.Environ(), "VERIF_WORKER=1", "VERIF_OUT=", "VERIF_REPLAY=")
+	// two processors: the garbage collector's parallel workers would otherwise
+	// multiply the processor time of an allocation-heavy request by the core count
+	cmd.Env = append(os.Environ(), "VERIF_WORKER=1", "VERIF_OUT=", "VERIF_REPLAY=", "GOMAXPROCS=2")
 	in, err := cmd.StdinPipe()
 	if err != nil {
 		return err
@@ -184,18 +186,24 @@ func (p *Pool) Close() {
 	p.stop()
 }
 
-// Run executes target ti on data in the worker. budget bounds the call; a
-// call that exceeds it is repeated once in a fresh worker with ten times the
-// budget before it is called a hang.
+// Run executes target ti on data in the worker. The call is bounded in
+// processor time, not in wall-clock time (the machine may be busy): it is a
+// hang when the worker has used cpuBudget of processor time, not counting the
+// time during which its resident memory grew, without answering (a loop that
+// does not end), when it has made no progress at all for stallLimit (blocked),
+// or after wallLimit. budget is the time the
+// caller waits before the worker is looked at more closely.
 func (p *Pool) Run(ti int, data []byte, budget time.Duration) (Status, string) {
 	p.mu.Lock()
 	defer p.mu.Unlock()
-	st, msg := p.once(ti, data, budget)
-	if st == Hang {
-		st, msg = p.once(ti, data, 10*budget)
-	}
-	return st, msg
+	return p.once(ti, data, budget)
 }
+
+const (
+	cpuBudget  = 60 * time.Second
+	stallLimit = 20 * time.Second
+	wallLimit  = 15 * time.Minute
+)
 
 func (p *Pool) once(ti int, data []byte, budget time.Duration) (Status, string) {
 	if p.cmd == nil {
@@ -203,6 +211,7 @@ func (p *Pool) once(ti int, data []byte, budget time.Duration) (Status, string) 
 			return Died, "cannot start worker: " + err.Error()
 		}
 	}
+	cpu0 := cpuTime(p.cmd.Process.Pid)
 	var hdr [12]byte
 	binary.LittleEndian.PutUint32(hdr[0:], uint32(ti))
 	binary.LittleEndian.PutUint32(hdr[4:], uint32(len(data)))
@@ -250,47 +259,112 @@ func (p *Pool) once(ti int, data []byte, budget time.Duration) (Status, string) 
 		}
 		return r.st, r.msg
 	case <-time.After(budget):
-		// No answer within the budget. One huge allocation sized by a length
-		// field that is still being zeroed or walked is a memory question, not a
-		// hang: the address space is large and no longer grows. A process whose
-		// address space keeps growing is in an unbounded loop.
-		v1 := vmSize(p.cmd.Process.Pid)
-		select {
-		case r := <-ch:
-			if r.err == nil {
+		// No answer yet: watch the worker. Processor time is charged only while
+		// its resident memory is not growing: touching fresh memory is slow here
+		// (seconds per GiB, more on a busy machine), and a request that allocates
+		// what a length field of the input asks for is not a loop. One that keeps
+		// growing runs into the address-space limit and is judged by its stack.
+		pid := p.cmd.Process.Pid
+		startWall := time.Now()
+		lastCPU, lastRSS := cpuTime(pid), residentSize(pid)
+		lastProgress := time.Now()
+		var charged time.Duration
+		why := ""
+		for why == "" {
+			select {
+			case r := <-ch:
+				if r.err != nil {
+					p.cmd.Wait()
+					stderr := p.errBuf.String()
+					p.cmd = nil
+					if isSingleOversizeAlloc(stderr) {
+						return Oversize, firstLines(stderr, 6)
+					}
+					return Died, firstLines(stderr, 40)
+				}
 				if r.st&0x80 != 0 {
 					p.cmd.Wait()
 					p.cmd = nil
 					r.st &^= 0x80
 				}
 				return r.st, r.msg
+			case <-time.After(time.Second):
 			}
-		case <-time.After(1500 * time.Millisecond):
-		}
-		v2 := vmSize(p.cmd.Process.Pid)
-		st, msg := Hang, fmt.Sprintf("no answer after %v (address space %d MiB, %d MiB 1.5 s later)", budget, v1>>20, v2>>20)
-		if v1 > 1<<30 && v2 == v1 {
-			st = Oversize
+			nowCPU, nowRSS := cpuTime(pid), residentSize(pid)
+			growing := nowRSS > lastRSS+8<<20
+			if growing || nowCPU-lastCPU > 50*time.Millisecond {
+				lastProgress = time.Now()
+			}
+			if !growing {
+				charged += nowCPU - lastCPU
+			}
+			lastCPU = nowCPU
+			if growing || nowRSS < lastRSS {
+				lastRSS = nowRSS
+			}
+			switch {
+			case charged > cpuBudget:
+				why = fmt.Sprintf("no answer after %v of processor time spent without touching new memory (%v elapsed, %v of processor time in all, %d MiB resident)", charged.Round(time.Second), (budget + time.Since(startWall)).Round(time.Second), (nowCPU - cpu0).Round(time.Second), nowRSS>>20)
+			case time.Since(lastProgress) > stallLimit:
+				why = fmt.Sprintf("no answer, and neither processor time used nor memory touched for %v: blocked (%v elapsed, %v of processor time)", stallLimit, (budget + time.Since(startWall)).Round(time.Second), (nowCPU - cpu0).Round(time.Millisecond))
+			case time.Since(startWall) > wallLimit:
+				why = fmt.Sprintf("no answer after %v", wallLimit)
+			}
 		}
 		p.cmd.Process.Signal(syscall.SIGQUIT) // ask the runtime for a goroutine dump
 		time.Sleep(300 * time.Millisecond)
 		p.stop()
-		return st, msg + "\n" + firstLines(p.errBuf.String(), 60)
+		return Hang, why + "\n" + libraryGoroutines(p.errBuf.String(), 60)
 	}
 }
 
-// vmSize returns the virtual memory size of a process in bytes (0 if unknown).
-func vmSize(pid int) uint64 {
+// residentSize returns the resident set size of a process in bytes (0 if unknown).
+func residentSize(pid int) uint64 {
 	b, err := os.ReadFile(fmt.Sprintf("/proc/%d/statm", pid))
 	if err != nil {
 		return 0
 	}
 	f := strings.Fields(string(b))
-	if len(f) == 0 {
+	if len(f) < 2 {
 		return 0
 	}
-	n, _ := strconv.ParseUint(f[0], 10, 64)
+	n, _ := strconv.ParseUint(f[1], 10, 64)
 	return n * uint64(os.Getpagesize())
+}
+
+// cpuTime returns the processor time (user+system, all threads) a process has used.
+func cpuTime(pid int) time.Duration {
+	b, err := os.ReadFile(fmt.Sprintf("/proc/%d/stat", pid))
+	if err != nil {
+		return 0
+	}
+	// the command name (field 2) may contain spaces: cut after the closing parenthesis
+	s := string(b)
+	if i := strings.LastIndexByte(s, ')'); i >= 0 {
+		s = s[i+1:]
+	}
+	f := strings.Fields(s)
+	if len(f) < 13 {
+		return 0
+	}
+	ut, _ := strconv.ParseUint(f[11], 10, 64) // utime: field 14 of the whole line
+	st, _ := strconv.ParseUint(f[12], 10, 64) // stime: field 15
+	return time.Duration(ut+st) * (time.Second / 100)
+}
+
+// libraryGoroutines keeps the goroutines of a runtime dump that have a frame
+// of the library under test (the others are the worker loop and the runtime).
+func libraryGoroutines(dump string, maxLines int) string {
+	var keep []string
+	for _, g := range strings.Split(dump, "\n\n") {
+		if strings.Contains(g, "github.com/biogo/hts") {
+			keep = append(keep, g)
+		}
+	}
+	if len(keep) == 0 {
+		return firstLines(dump, maxLines)
+	}
+	return firstLines(strings.Join(keep, "\n\n"), maxLines)
 }
 
 var oomRe = regexp.MustCompile(`cannot allocate (\d+)-byte block \((\d+) in use\)`)
